@@ -22,7 +22,7 @@ type Env struct {
 	st        *State
 	old       *State
 	vars      map[string]SVal
-	lookup    func(name string) (SVal, bool)
+	lookup    func(name string, st *State) (SVal, bool)
 	ctx       *PkgCtx
 	visKey    string // state component of the map-range visited set for `visited(k)`
 	loopAlloc Term   // alloc array at the start of the enclosing loop (for newsince)
@@ -230,7 +230,7 @@ func (e *Env) evalIdent(name string) (SVal, error) {
 		return SVal{Term{"nil", "Nil"}, types.Typ[types.UntypedNil]}, nil
 	}
 	if e.lookup != nil {
-		if v, ok := e.lookup(name); ok {
+		if v, ok := e.lookup(name, e.st); ok {
 			return v, nil
 		}
 	}
@@ -265,7 +265,7 @@ func (e *Env) importOf(x ast.Expr) *types.Package {
 		return nil
 	}
 	if e.lookup != nil {
-		if _, ok := e.lookup(id.Name); ok {
+		if _, ok := e.lookup(id.Name, e.st); ok {
 			return nil
 		}
 	}
